@@ -75,6 +75,11 @@ CLAIMED = {
         note="HDF5 (h5netcdf) and Pillow are externals exercised by the search on generated files (1-3 cycles, dtypes, anisotropic spacing, 1-3 channels, dict/array metadata, names); the YAML inverse pair is a hypothesis; 'original untouched' is search-only.",
         technique="Lean 4 theorems (floor bounds, list induction) + differential correspondence through real files + round-trip search",
         ref="DESIGN.md §5 C16"),
+    "C13": dict(
+        text="Proof (Lean 4, reals) about the fitting GLUE around an abstract minimiser (structure Minimizer with contract H1 limits respected, H2 objective not increased, H3 zero residual at the start is a fixed point; shown inhabited): scale/unscale with the positive scale factors make the start handed to the minimiser the guess and lie within the scaled limits; hence fitting noise-free data generated at the guess returns the guess (H3), the returned misfit is never worse than the guess's (H2), a scaled value inside the scaled limits unscales inside the prior's bounds (H1 => bounds); the prior residual vanishes at the guess; result names are the model's names in order; after a completed fit none of the four scratch attributes remains and a second fit runs through the same states. For LeastSquaresScipyStrategy the statement about bounds is explicitly PARTIAL: its residual drops the prior term and no limits are passed. Tied by correspondence: the parinfo actually handed to mpfit (captured), the residual vector, the strategy's attributes after each phase.",
+        note="The optimisers (third_party nmpfit.mpfit, scipy least_squares) are not modelled: H1-H3 are hypotheses, sampled on the real optimisers; recovery from a nearby start, repeatability and save/load of results are search-only (6 quick / 60 thorough fits incl. lens theory and pixel subsets); results of the SciPy strategy cannot be reloaded (known findings).",
+        technique="Lean 4 theorems over a contract-parametrised model + differential correspondence (captured optimiser inputs) + fitting search on generated problems",
+        ref="DESIGN.md §5 C13"),
 }
 
 NOT_YET = {}
